@@ -235,13 +235,47 @@ def check_main(ctx: Ctx, fi: FuncInfo):
     ctx.check("parse_str(script)" in txt, "MP-entrypoint", fi, "functions come from the given script", "", "", fi.node)
 
 
+def _callee_params(repo, qual: str):
+    f = repo.func(qual)
+    ps = list(f.params)
+    return ps[1:] if ps and ps[0] in ("self", "cls") else ps
+
+
 def check_quasm(ctx: Ctx, fi: FuncInfo, main: FuncInfo):
-    txt = norm(fi.node)
-    ok = f"{fi.params[0]}.compile(compiler={fi.params[1]})" in txt.replace(" ", "").replace("compiler=compiler", f"compiler={fi.params[1]}") and "QasmExporter(version=version)" in txt and "mode='circuit'" in txt
-    ctx.check(ok, "DP-TABLE", fi, "compiles with the chosen compiler, exports the chosen version, circuit mode", "", "py2qasm does not pass compiler/version through, or does not export the whole circuit", fi.node)
+    """the three calls of convert_to_quasm receive the function's own parameters, whichever way they are spelled"""
+    repo = ctx.repo
+    p_f, p_c, p_v = fi.params[0], fi.params[1], fi.params[2]
+    comp = [c for c in q.calls(fi.node) if isinstance(c.func, ast.Attribute) and c.func.attr == "compile" and norm(c.func.value) == p_f]
+    ctor = [c for c in q.calls(fi.node) if (dotted(c.func) or "").split(".")[-1] == "QasmExporter"]
+    exp = [c for c in q.calls(fi.node) if isinstance(c.func, ast.Attribute) and c.func.attr == "export"]
+    if not (len(comp) == 1 and len(ctor) == 1 and len(exp) == 1):
+        ctx.undecided(fi.short, f"expected one compile / QasmExporter / export call each, found {len(comp)}/{len(ctor)}/{len(exp)}")
+    else:
+        a_c = q.bound_args(repo, comp[0], _callee_params(repo, "qlassfun.QlassF.compile"))
+        a_v = q.bound_args(repo, ctor[0], _callee_params(repo, "qcircuit.exporter_qasm.QasmExporter.__init__"))
+        a_e = q.bound_args(repo, exp[0], _callee_params(repo, "qcircuit.exporter_qasm.QasmExporter.export"))
+        if a_c is None or a_v is None or a_e is None:
+            ctx.undecided(fi.short, "a call in convert_to_quasm uses * / ** or an unknown keyword")
+        else:
+            bad = []
+            if a_c[0] is None or norm(a_c[0]) != p_c:
+                bad.append(f"`{norm(comp[0])}` does not compile with `{p_c}`")
+            if a_v[0] is None or norm(a_v[0]) != p_v:
+                bad.append(f"`{norm(ctor[0])}` does not export version `{p_v}`")
+            mode = a_e[1] if len(a_e) > 1 else None
+            if not (isinstance(mode, ast.Constant) and mode.value == "circuit"):
+                bad.append(f"`{norm(exp[0])}` does not export in circuit mode")
+            ctx.check(not bad, "DP-TABLE", fi, "compiles with the chosen compiler, exports the chosen version, circuit mode", "", "; ".join(bad), fi.node)
     cs = [c for c in q.calls(main.node) if (dotted(c.func) or "") == "convert_to_quasm"]
-    ok = len(cs) == 1 and {k.arg: norm(k.value) for k in cs[0].keywords} == {"compiler": "compiler", "version": "version"}
-    ctx.check(ok, "DP-TABLE", main, "options reach convert_to_quasm", "", "the parsed options are not forwarded", main.node)
+    if len(cs) != 1:
+        ctx.undecided(main.short, f"{len(cs)} convert_to_quasm calls")
+        return
+    a_m = q.bound_args(repo, cs[0], list(fi.params))
+    if a_m is None:
+        ctx.undecided(main.short, "convert_to_quasm is called with * / ** or an unknown keyword")
+        return
+    got = [norm(x) if x is not None else None for x in a_m[1:3]]
+    ctx.check(got == ["compiler", "version"], "DP-TABLE", main, "options reach convert_to_quasm", "", f"the parsed options are not forwarded: compiler={got[0]}, version={got[1]}", cs[0])
 
 
 def check_discovery(ctx: Ctx, pf: FuncInfo):
